@@ -800,6 +800,8 @@ int32_t pstm_lshd(pstm_int *a, uint16_t b)
             *top++ = 0;
         }
     }
+    /* shifting zero must leave used == 0 */
+    pstm_clamp(a);
     return PSTM_OKAY;
 }
 
